@@ -381,8 +381,9 @@ def unhex(s):
 class Rng:
     """splitmix64: every random choice of a run derives from VERIF_SEED."""
 
-    def __init__(self, seed):
+    def __init__(self, seed, bags=None):
         self.s = seed & 0xFFFFFFFFFFFFFFFF
+        self.bags = bags if bags is not None else {}
 
     def next(self):
         self.s = (self.s + 0x9E3779B97F4A7C15) & 0xFFFFFFFFFFFFFFFF
@@ -398,7 +399,18 @@ class Rng:
         return a + self.below(b - a + 1)
 
     def choice(self, xs):
-        return xs[self.below(len(xs))]
+        """Balanced choice: at each call site the options of a short list are dealt from a shuffled bag, so every option
+        is used once per len(xs) calls of that site (in random order) instead of leaving it to the seed whether a rare
+        option is ever drawn in a quick run.  Every draw still derives from the one PRNG state."""
+        n = len(xs)
+        if n <= 1 or n > 24:
+            return xs[self.below(n)]
+        f = sys._getframe(1)
+        site = (f.f_code.co_filename, f.f_lineno, n)
+        bag = self.bags.get(site)
+        if not bag:
+            bag = self.bags[site] = self.shuffle(range(n))
+        return xs[bag.pop()]
 
     def chance(self, num, den):
         return self.below(den) < num
@@ -417,7 +429,7 @@ class Rng:
         return xs
 
     def fork(self):
-        return Rng(self.next())
+        return Rng(self.next(), self.bags)
 
 
 # ----------------------------------------------------------------- findings
